@@ -63,7 +63,10 @@ type WCase struct {
 	Targets  []WTarget `json:"targets"`
 	Active   []uint64  `json:"active"`
 	Ops      []WOp     `json:"ops"`
-	Tail     int       `json:"tail"` // fault-free macro cycles (cycle + 3 scrape rounds) appended
+	Tail     int       `json:"tail"` // fault-free macro cycles (cycle + scrape rounds on every shard) appended
+	// scrape rounds per shard in tail cycle k: TailRounds[(k*replicas+shard) % len] (empty = 3 everywhere);
+	// every shard scrapes at least once per cycle
+	TailRounds []int `json:"tailRounds,omitempty"`
 }
 
 type loopRig struct {
@@ -581,8 +584,12 @@ func runLoopCase(c *WCase, work string) *loopRun {
 		if !cycle(nil, false) {
 			break
 		}
-		for r := 0; r < 3; r++ {
-			for i := 0; i < w.replicas; i++ {
+		for i := 0; i < w.replicas; i++ {
+			nr := 3
+			if len(c.TailRounds) > 0 {
+				nr = c.TailRounds[(k*w.replicas+i)%len(c.TailRounds)]
+			}
+			for r := 0; r < nr; r++ {
 				round(i)
 			}
 		}
@@ -741,6 +748,13 @@ func genLoopCase(r *Rng, faulty bool, tail int) *WCase {
 			} else {
 				c.Ops = append(c.Ops, WOp{Kind: "cycle"})
 			}
+		}
+	}
+	if r.Chance(50) {
+		// shards scrape at different speeds
+		c.Tail = tail * 5 / 2
+		for k := 0; k < 7; k++ {
+			c.TailRounds = append(c.TailRounds, 1+r.Intn(3))
 		}
 	}
 	return c
@@ -982,7 +996,7 @@ func runLoop(a Args) *Result {
 			why := loopReason(c, run)
 			res.count("not_converged_" + why)
 			res.ImplViol = capViol(res.ImplViol, Violation{Property: prop, Clause: "converges", Signature: prop + "/converges/" + why,
-				What: fmt.Sprintf("after %d fault-free cycles (3 scrape rounds each) the shards are not in the converged, quiet state: %s; flags per cycle (converged,quiet,scaleUpClause,faulty,stabilityHypotheses) %s", c.Tail, why, strings.Join(flags[run.TailFrom:], ",")), Case: full}, 2)
+				What: fmt.Sprintf("after %d fault-free cycles (1-3 scrape rounds per shard each) the shards are not in the converged, quiet state: %s; flags per cycle (converged,quiet,scaleUpClause,faulty,stabilityHypotheses) %s", c.Tail, why, strings.Join(flags[run.TailFrom:], ",")), Case: full}, 2)
 		} else {
 			res.count(fmt.Sprintf("converged_after_%02d", j0-run.TailFrom))
 		}
